@@ -11,7 +11,9 @@ SLACK_MS = 250      # scheduling tolerance of the trace specification (Pool_Trac
 
 RULE = ("S->C (a): TLC evaluates PoolSelect!Choices for every configuration of a grid (N<=4 connections x alive x seqno in "
         "{0,1,2,3,2^32-1} x rtt 0..2); each vector is replayed into the real updateBest for both strategies and every previous "
-        "best (0..N), observed through BestMasterchainClient. S->C (b): behaviours of Pool are forced step by step on the real "
+        "best (0..N), observed through BestMasterchainClient; the pool is filled through the real addConnection in an arrival "
+        "order that runs through all permutations, and every arrival order of every subset of 4 configured servers "
+        "(PoolOrder_Gen) must leave p.conns and Status() in configuration order. S->C (b): behaviours of Pool are forced step by step on the real "
         "subscribe/notifySubscribers/unsubscribe/SetMasterHead/WaitMasterchainSeqno/updateBest through scheduler gates in the "
         "hooks, comparing goroutine positions, channel lengths, wait list, best and heads after every step: TLC -simulate of the "
         "protocol the code implements (FixNotify = FixTimer = FixSetHead = TRUE; these scripts must be followable) and, as leads, "
@@ -100,7 +102,46 @@ def select_key(cls):
     return "C13:select:" + cls
 
 
+def phase_order(ck):
+    """Every arrival order of every subset of 4 configured servers (PoolOrder_Gen): the pool is filled through the real
+    addConnection; list / Status() order and the refresh on the list as built are compared with the specification."""
+    res = ck.tlc_or_infra("PoolOrder_Gen", "gen/PoolOrder_Gen.cfg", workers=1, timeout=300, name="ordgen", heap_gb=1)
+    vecs = res.vecs()
+    if len(vecs) < 64:
+        raise Infra("PoolOrder_Gen produced %d arrival orders, expected 64" % len(vecs))
+    vp, op = os.path.join(ck.work, "ord_vec.ndjson"), os.path.join(ck.work, "ord_out.ndjson")
+    vlib.write_ndjson(vp, vecs)
+    gotest(ck, "TestVerifOrder", {"C13_IN": vp, "C13_OUT": op})
+    rows = read_out(op)
+    summ = rows[-1]
+    if summ.get("k") != "Sum" or summ["vectors"] != len(vecs):
+        raise Infra("arrival-order replay incomplete: %s" % summ)
+    for r in rows[:-1]:
+        arr = [a["id"] for a in r["v"]["arrivals"]]
+        if r["class"].startswith("addConnection:"):
+            key = "C13:" + r["class"]
+            what = "after the connections arrived in the order %s the pool lists %s (Status(): %s); configuration order is %s" % (
+                arr[:r.get("step", 0) + 1], r.get("conns"), r.get("status"), r["exp"])
+        else:
+            key = select_key(r["class"])
+            what = "pool filled through addConnection in arrival order %s: the %s refresh chose %s where PoolSelect allows %s" % (
+                arr, r["strategy"], r["got"], r["exp"])
+        ck.report(key, what, {"kind": "order", "vector": r["v"]})
+    ck.traces_ok += summ["vectors"] - len({r["vec"] for r in rows[:-1]})
+    ck.evaluations += summ["calls"]
+    ck.extra["arrival_orders"] = len(vecs)
+    ck.sample({"direction": "S->C arrival order", "vector": vecs[len(vecs) // 2]})
+    cv = copy.deepcopy(next(v for v in vecs if len(v["arrivals"]) >= 2))
+    cv["arrivals"][-1]["order"] = list(reversed(cv["arrivals"][-1]["order"]))
+    cp, co = os.path.join(ck.work, "ord_canary.ndjson"), os.path.join(ck.work, "ord_canary_out.ndjson")
+    vlib.write_ndjson(cp, [cv])
+    gotest(ck, "TestVerifOrder", {"C13_IN": cp, "C13_OUT": co})
+    ck.canary("S->C arrival order: reversed expected list", read_out(co)[-1]["mismatch"] > 0)
+    return len(vecs)
+
+
 def phase_select(ck):
+    norder = phase_order(ck)
     vecs = select_vectors(ck)
     vp, op = os.path.join(ck.work, "sel_vec.ndjson"), os.path.join(ck.work, "sel_out.ndjson")
     vlib.write_ndjson(vp, vecs)
@@ -113,7 +154,8 @@ def phase_select(ck):
         ck.report(select_key(r["class"]),
                   "updateBest chose %s (observed via %s) where PoolSelect allows %s: strategy %s, previous best %d, connections %s" % (
                       r["got"], r["via"], r["exp"], r["strategy"], r["prev"], json.dumps(r["v"]["c"])),
-                  {"kind": "select", "vector": r["v"], "strategy": r["strategy"], "prev": r["prev"], "got": r["got"], "exp": r["exp"]})
+                  {"kind": "select", "vector": dict(r["v"], arr=r.get("arr", [])), "strategy": r["strategy"], "prev": r["prev"],
+                   "got": r["got"], "exp": r["exp"], "arrival_order": r.get("arr", [])})
     ck.traces_ok += summ["vectors"] - len({r["vec"] for r in rows[:-1]})
     ck.evaluations += summ["calls"]
     ck.extra["select_vectors"] = len(vecs)
@@ -127,7 +169,7 @@ def phase_select(ck):
     vlib.write_ndjson(cp, [cv])
     gotest(ck, "TestVerifSelect", {"C13_IN": cp, "C13_OUT": co})
     ck.canary("S->C select: corrupted first-working expectation", read_out(co)[-1]["mismatch"] > 0)
-    return len(vecs)
+    return len(vecs) + norder
 
 
 # ------------------------------------------------------------------------------------------------ MC
@@ -599,6 +641,17 @@ def replay(ck, path):
         vp, op = os.path.join(ck.work, "v.ndjson"), os.path.join(ck.work, "o.ndjson")
         vlib.write_ndjson(vp, [r["vector"]])
         gotest(ck, "TestVerifSelect", {"C13_IN": vp, "C13_OUT": op})
+        rows = read_out(op)
+        for x in rows[:-1]:
+            print(json.dumps({k: v for k, v in x.items() if k != "v"}))
+        if rows[-1]["mismatch"]:
+            print("VIOLATION property=C13 replay=%s" % path)
+            return 1
+        return 0
+    if r["kind"] == "order":
+        vp, op = os.path.join(ck.work, "v.ndjson"), os.path.join(ck.work, "o.ndjson")
+        vlib.write_ndjson(vp, [r["vector"]])
+        gotest(ck, "TestVerifOrder", {"C13_IN": vp, "C13_OUT": op})
         rows = read_out(op)
         for x in rows[:-1]:
             print(json.dumps({k: v for k, v in x.items() if k != "v"}))
